@@ -383,7 +383,9 @@ def rule_T3(ctx):
     ok = len(brk) == 1 and any("max_time" in u(t) and "elapsed" in u(t) for t, pol in guards_of(brk[0], pm))
     ctx.check(ok, "T3", "_run_main_sampler: the only break is the timer test", m.where(brk[0]) if brk else m.where(), "the sweep loop has %d break statement(s) not all tied to the max_time test" % len(brk), construct=m.qualname, stmt="break")
     for n in [x for g_ in scope_m for x in ast.walk(g_.node)]:
-        if isinstance(n, (ast.Try,)):
+        # (try ... finally without an `except` clause handles nothing: the exception goes on after the clean-up - unless
+        # the finally block itself leaves with return / break / continue, which discards it)
+        if isinstance(n, (ast.Try,)) and (n.handlers or any(isinstance(x, (ast.Return, ast.Break, ast.Continue)) for st_ in n.finalbody for x in ast.walk(st_))):
             ctx.fail("T3", "_run_main_sampler has no exception handler", m.where(n), "an exception handler inside the sweep loop can swallow a sampler failure", construct=m.qualname, stmt="try")
     c = prog.fn("run.run_phyclone_chain")
     rets = [n for n in ast.walk(c.node) if isinstance(n, ast.Return)]
@@ -436,7 +438,7 @@ def rule_T3(ctx):
                 return True
         return False
 
-    hs = [n for g in scope for n in ast.walk(g.node) if isinstance(n, ast.Try) and _guards_repo_work(g, n)]
+    hs = [n for g in scope for n in ast.walk(g.node) if isinstance(n, ast.Try) and _guards_repo_work(g, n) and (n.handlers or any(isinstance(x, (ast.Return, ast.Break, ast.Continue)) for st_ in n.finalbody for x in ast.walk(st_)))]
     ctx.check(not hs, "T3", "run.run has no handler that could swallow a failure", r.where(hs[0]) if hs else r.where(), "run.run contains a try block", construct=r.qualname, stmt="try")
     w = calls(r.node, name="create_main_run_output")
     ok = len(w) == 1 and not guards_of(w[0], pm) and not any(isinstance(a, (ast.For, ast.While)) for a in _ancestors(w[0], pm))
@@ -611,6 +613,11 @@ def run(ctx):
     # "every recorded entry is a tree over all data points" of *this* run: no trace, candidate list or table carried over
     # from an earlier call through a default argument or a module-level memo
     _premises.no_call_state(ctx)
+    # the subtree move draws its block through a non-outlier data point and hands back the re-assembled whole tree
+    # (same rule object as C04.P1 / P2): an outlier drawn there has no parent to look up
+    from . import C04
+
+    imported(ctx, C04.rule_P1)
     # every SMC pass runs over the order drawn from the tree: it must hold every data point (an order that is too short
     # ends in an index error or a tree without the missing points) — same rule object as C09.P1-P4
     from . import C09
